@@ -107,7 +107,8 @@ def s_case(draw):
             "lazy": draw(st.sampled_from([False, False, True])),       # make_tests yields the next sub-suite only once the earlier ones are done
             "failfast": draw(st.sampled_from([False, False, False, True])),   # (classic) the caller's result stops at the first failure
             "tail": draw(st.one_of(st.none(), st.fixed_dictionaries({"seed": st.integers(0, 1 << 20), "p": st.sampled_from([2, 4, 8])}))),       # pre-emptions after the explicit schedule is used up
-            "schedule": draw(st.lists(st.integers(0, 3), max_size=40))}
+            "schedule": draw(st.lists(st.integers(0, 3), max_size=40)),
+            "ephemeral": draw(st.sampled_from([False, False, True]))}      # sub-suites are objects only the suite under test refers to
 
 
 def execute(spec, schedule=None):
@@ -165,6 +166,8 @@ def execute(spec, schedule=None):
     caller_log = []        # (task tid, name, payload)
     sems = []
 
+    fake_threads = []
+
     class FakeThread:
         def __init__(self, group=None, target=None, name=None, args=(), kwargs=None, daemon=None):
             self.target, self.args, self.kwargs = target, args, kwargs or {}
@@ -178,8 +181,12 @@ def execute(spec, schedule=None):
             self.ident = self.native_id = None
 
         def run(self):
-            if self.target is not None:
-                self.target(*self.args, **self.kwargs)
+            try:
+                if self.target is not None:
+                    self.target(*self.args, **self.kwargs)
+            finally:
+                # as threading.Thread.run does: a finished thread no longer keeps its target and arguments alive
+                self.target, self.args, self.kwargs = None, (), {}
 
         def start(self):
             if self.task is not None:
@@ -190,6 +197,7 @@ def execute(spec, schedule=None):
                 sched.yield_point("thread.start")
                 raise_fault("thread %d could not be started" % self.number)
             self.task = sched.spawn(self.run, "W%d" % (self.number + 1))
+            fake_threads.append(self)
             self.ident = self.native_id = 1000 + self.number
             sched.yield_point("thread.start")
             if strike:
@@ -375,6 +383,16 @@ def execute(spec, schedule=None):
             worker_log.append((self.wid, "shouldStop", bool(result.shouldStop), aborted_before))
     workers = [Worker(i, w) for i, w in enumerate(spec["workers"])]
 
+    class Handle:
+        """A sub-suite object that lives only as long as the suite under test holds on to it (the harness keeps the
+        Worker it delegates to, never the handle)."""
+        # (an uncommon object size: the allocator hands a freed block to the next object of the same size class, so
+        # with few other objects of this size the next handle is likely to get the address of the one just freed)
+        __slots__ = ("run",) + tuple("pad%d" % i for i in range(39))
+
+        def __init__(self, worker):
+            self.run = worker.run
+
     def route_of(i):
         return {"distinct": "r%d" % i, "none": None, "shared": "r", "empty": ""}[routes]
 
@@ -387,12 +405,19 @@ def execute(spec, schedule=None):
         for i, w in enumerate(workers):
             if spec.get("lazy"):
                 # an iterator that hands out the next sub-suite only when the earlier ones have run
-                sched.yield_point("make_tests.next", pred=lambda: all(x.finished for x in workers[:i]))
+                # (ephemeral sub-suites: ... and their threads have ended, so that nothing of the harness's keeps them alive)
+                sched.yield_point("make_tests.next", pred=lambda: all(x.finished for x in workers[:i]) and (
+                    not spec.get("ephemeral") or all(t.task is None or t.task.done for t in fake_threads)))
             else:
                 sched.yield_point("make_tests.next")
             if f and f["at"] == "make_tests" and f["k"] == i:
                 raise_fault("make_tests raised after %d sub-suites" % i)
-            yield (w, route_of(i)) if stream else w
+            if spec.get("ephemeral"):
+                # what a lazy make_tests really yields: an object nobody else refers to.  Once the suite lets go of
+                # it the object is freed, and the next one may live at the same address.
+                yield (Handle(w), route_of(i)) if stream else Handle(w)
+            else:
+                yield (w, route_of(i)) if stream else w
         if f and f["at"] == "make_tests" and f["k"] >= len(workers):
             sched.yield_point("make_tests.next")
             raise_fault("make_tests raised after all sub-suites")
@@ -891,6 +916,14 @@ def _enum_sites():
                 spec = _grid_spec(suite, [["failure", "success", "success"], ["success", "uxsuccess", "success"], ["error"], ["success", "success", "success"]], None, schedule, wrap_result=wrap)
                 spec["workers"][2]["raise_after"] = 1
                 yield spec
+    # sub-suites nobody but the suite refers to (freed once it lets go: addresses are recycled), made lazily or not;
+    # schedules that let an early worker's thread end before a later sub-suite is made while another still runs
+    for suite in ("stream", "classic"):
+        for tests in ([[], ["success"], ["success", "failure"], ["success"]], [["success"], [], [], ["failure", "success"]],
+                      [[], [], ["success", "success", "success"], ["success"]], [[], ["success", "success"], []]):
+            for schedule in ([], [1] * 30, [2] * 30, [3] * 30, [1, 1, 2, 2] * 8, [2, 2, 3, 3] * 8, [1, 2, 3] * 10, [2, 3] * 15):
+                yield _grid_spec(suite, tests, None, schedule, lazy=False, ephemeral=True, wrap_result=False)
+            yield _grid_spec(suite, tests, None, [], lazy=True, ephemeral=True, wrap_result=False)
     # long-running forwarders under dense pre-emption (behaviour that depends on how many tests a forwarder has reported)
     for seed in range(12):
         yield _grid_spec("classic", [["failure", "success", "success"], ["success", "uxsuccess", "success"], ["success", "success", "success"]], None, [],
